@@ -28,15 +28,15 @@ type opsOp struct {
 }
 
 type opsRun struct {
-	ID    string              `json:"id"`
-	Mode  string              `json:"mode"`  // gated | free
-	Eager bool                `json:"eager"` // gated: operations are invoked as soon as the process is free (no invoke gate)
+	ID    string `json:"id"`
+	Mode  string `json:"mode"`  // gated | free
+	Eager bool   `json:"eager"` // gated: operations are invoked as soon as the process is free (no invoke gate)
 	// WaitMS bounds how long the scheduler waits for a released call before it treats the process as blocked inside it
 	// (schedules listed for another store: a Begin that waits for the single connection simply stays blocked).
-	WaitMS int `json:"waitms,omitempty"`
-	Db0   map[string]world.CP `json:"db0"`
-	Prog  [][]opsOp           `json:"prog"`  // Prog[p-1]
-	Sched [][2]any            `json:"sched"` // gated: who moves next
+	WaitMS int                 `json:"waitms,omitempty"`
+	Db0    map[string]world.CP `json:"db0"`
+	Prog   [][]opsOp           `json:"prog"`  // Prog[p-1]
+	Sched  [][2]any            `json:"sched"` // gated: who moves next
 }
 
 type linEvent struct {
@@ -53,6 +53,7 @@ type linEvent struct {
 	Scen   string              `json:"scen,omitempty"`
 	Calls  []opCall            `json:"calls,omitempty"`
 	Drift  []string            `json:"drift,omitempty"`
+	Ctr    map[string]Ctr      `json:"ctr,omitempty"` // metrics event: counters scraped from the production binary
 }
 
 type linRecorder struct {
